@@ -7,3 +7,5 @@
 //!   for everything outside the subset.
 pub mod enc;
 pub mod html;
+/// applying out-of-order stream chunks as the browser does (borrowed from hx-c07)
+pub mod stream;
